@@ -9,8 +9,8 @@
 #include "c10_ossl_peer.h"
 using namespace vf; using namespace mxh; using namespace c10;
 
-enum { D_NONE, D_INT_OK, D_EXPIRED, D_NOTYET, D_WRONGNAME, D_UNKNOWNCA, D_BADSIG, D_INT_NOTCA, D_INT_NOSIGN, D_DEPTH, D_N };
-static const char *dname[] = { "none", "valid-intermediate", "expired", "not-yet-valid", "wrong-name", "unknown-ca", "bad-signature", "intermediate-not-ca", "intermediate-without-keyCertSign", "max-verify-depth-exceeded" };
+enum { D_NONE, D_INT_OK, D_EXPIRED, D_NOTYET, D_WRONGNAME, D_UNKNOWNCA, D_BADSIG, D_INT_NOTCA, D_INT_NOSIGN, D_DEPTH, D_EXPIRED_AND_UNKNOWNCA, D_EXPIRED_LEAF_UNANCHORED_CHAIN, D_N };
+static const char *dname[] = { "none", "valid-intermediate", "expired", "not-yet-valid", "wrong-name", "unknown-ca", "bad-signature", "intermediate-not-ca", "intermediate-without-keyCertSign", "max-verify-depth-exceeded", "expired+unknown-ca", "expired-leaf-in-unanchored-chain" };
 enum { CB_NONE, CB_STRICT, CB_PERMISSIVE, CB_ANON, CB_PICKY_EXPIRED, CB_N };
 static const char *cbname[] = { "no-callback", "strict", "permissive", "anon", "picky(expired-only)" };
 
@@ -50,6 +50,8 @@ static void prop(Tape &t, Ctx &c) {
     case D_UNKNOWNCA: pc = D + "unknownca_" + T + ".pem"; pk = D + "unknownca_" + T + ".key"; break;
     case D_BADSIG: pc = D + "badsig_" + T + ".pem"; pk = D + "badsig_" + T + ".key"; break;
     case D_INT_NOTCA: pc = D + "chain_ica_notca_" + T + ".pem"; pk = D + "via_ica_notca_" + T + ".key"; break;
+    case D_EXPIRED_AND_UNKNOWNCA: pc = D + "expired_unknownca_" + T + ".pem"; pk = D + "expired_unknownca_" + T + ".key"; break;
+    case D_EXPIRED_LEAF_UNANCHORED_CHAIN: pc = D + "chain_expired_unanchored_" + T + ".pem"; pk = D + "expired_via_other_" + T + ".key"; break;
     case D_INT_NOSIGN: pc = D + "chain_ica_nosign_" + T + ".pem"; pk = D + "via_ica_nosign_" + T + ".key"; break;
     }
     std::string ca = P + "ca_" + T + ".pem";
